@@ -6,6 +6,9 @@ from concurrent.futures import ThreadPoolExecutor
 
 VERIF = os.path.dirname(os.path.dirname(os.path.abspath(__file__)))
 REPO = os.environ.get("VERIF_REPO", "/repo")
+# mutation experiments redirect all outputs (build, evidence, replays) so that they never
+# disturb the registered checks: VERIF_OUT=<dir>
+OUT = os.environ.get("VERIF_OUT", VERIF)
 NPROC = int(os.environ.get("VERIF_JOBS", str(os.cpu_count() or 4)))
 
 ASAN_FLAGS = ["-std=c++11", "-O1", "-g", "-DNDEBUG", "-fno-omit-frame-pointer",
@@ -45,7 +48,7 @@ class Ctx:
         self.tier = tier
         self.seed = seed
         self.t0 = time.time()
-        self.bdir = os.path.join(VERIF, "build", pid)
+        self.bdir = os.path.join(OUT, "build", pid)
         self.counters = {}
         self.samples = []
         self.violations = []      # dicts key, case, msg, harness, args
@@ -154,35 +157,49 @@ class Ctx:
         restarted after that case (resume token)."""
         nshards = nshards or NPROC
         label = label or os.path.basename(binary)
+        jobs = [(binary, args + ["--shard", str(i), "--nshards", str(nshards)], label) for i in range(nshards)]
+        self.run_jobs(jobs, parallel=nshards, env=env, max_restarts=max_restarts, timeout=per_shard_timeout)
+
+    def run_jobs(self, jobs, parallel=None, env=None, max_restarts=40, timeout=None):
+        """jobs: list of (binary, args, label); each is one OS process that gets
+        --out/--crumb/--deadline appended.  Up to `parallel` run concurrently."""
+        parallel = parallel or NPROC
         e = dict(os.environ)
         e.update(ASAN_ENV)
         if env:
             e.update(env)
-        tag = hashlib.md5((label + " ".join(args)).encode()).hexdigest()[:8]
         deadline = self.t0 + self.budget
         procs = {}
+        pending = list(enumerate(jobs))
+        pending.reverse()
+        self._jobseq = getattr(self, "_jobseq", 0)
 
         def start(i, gen, resume):
-            out = os.path.join(self.bdir, "out.%s.%d.%d" % (tag, i, gen))
-            crumb = os.path.join(self.bdir, "crumb.%s.%d" % (tag, i))
-            err = os.path.join(self.bdir, "err.%s.%d.%d" % (tag, i, gen))
-            cmd = [binary] + args + ["--shard", str(i), "--nshards", str(nshards), "--out", out,
-                                     "--crumb", crumb, "--deadline", str(int(deadline))]
+            binary, args, label = jobs[i]
+            tag = "%d_%d" % (self._jobseq, i)
+            out = os.path.join(self.bdir, "out.%s.%d" % (tag, gen))
+            crumb = os.path.join(self.bdir, "crumb.%s" % tag)
+            err = os.path.join(self.bdir, "err.%s.%d" % (tag, gen))
+            tmp = os.path.join(self.bdir, "tmp.%s" % tag)
+            os.makedirs(tmp, exist_ok=True)
+            cmd = [binary] + args + ["--out", out, "--crumb", crumb, "--deadline", str(int(deadline)), "--tmp", tmp]
             if resume is not None:
                 cmd += ["--resume", resume]
             p = subprocess.Popen(cmd, stdout=subprocess.DEVNULL, stderr=open(err, "w"), env=e)
             procs[i] = (p, gen, out, crumb, err, time.time())
 
-        for i in range(nshards):
-            start(i, 0, None)
         restarts = 0
-        while procs:
+        while procs or pending:
+            while pending and len(procs) < parallel:
+                i, _ = pending.pop()
+                start(i, 0, None)
             time.sleep(0.02)
             for i in list(procs):
                 p, gen, out, crumb, err, ts = procs[i]
+                binary, args, label = jobs[i]
                 rc = p.poll()
                 if rc is None:
-                    if per_shard_timeout and time.time() - ts > per_shard_timeout:
+                    if timeout and time.time() - ts > timeout:
                         p.kill()
                     continue
                 del procs[i]
@@ -190,7 +207,7 @@ class Ctx:
                 if rc == 0:
                     continue
                 if rc == 3:   # harness reported its own fatal error
-                    raise HarnessError("%s shard %d: harness error\n%s" % (label, i, open(err).read()[-3000:]))
+                    raise HarnessError("%s: harness error\n%s" % (label, open(err, errors="replace").read()[-3000:]))
                 # abnormal death: read crumb
                 try:
                     raw = open(crumb, "rb").read().split(b"\0")[0].decode("utf-8", "replace")
@@ -198,8 +215,8 @@ class Ctx:
                     raw = ""
                 parts = raw.split("\n", 2)
                 if len(parts) < 3 or not parts[2]:
-                    raise HarnessError("%s shard %d died (rc=%s) without breadcrumb\n%s" %
-                                       (label, i, rc, open(err).read()[-3000:]))
+                    raise HarnessError("%s died (rc=%s) without breadcrumb\n%s" %
+                                       (label, rc, open(err, errors="replace").read()[-3000:]))
                 keyhint, resume, case = parts
                 status = ""
                 if "\n@@" in case:
@@ -227,23 +244,39 @@ class Ctx:
                                         "args": args, "stderr": errtxt[-4000:]})
                 restarts += 1
                 if restarts > max_restarts:
-                    self.notes.append("more than %d crashing cases in %s; remaining cases of dying shards not explored"
+                    self.notes.append("more than %d crashing cases in %s; remaining cases of dying processes not explored"
                                       % (max_restarts, label))
                     self.counters["capped_restarts"] = 1
                     continue
                 start(i, gen + 1, resume)
+        self._jobseq += 1
         if self.counters.get("deadline_hit"):
             self.deadline_hit = True
 
     def run_one(self, binary, args, label=None, env=None):
-        self.run_shards(binary, args, nshards=1, label=label, env=env)
+        self.run_jobs([(binary, args, label or os.path.basename(binary))], parallel=1, env=env)
 
     # ---------------------------------------------------------------- finish
-    def finish(self, level, coverage, assumptions=None):
+    def finish(self, level, coverage, assumptions=None, tags=None):
+        """tags: if given, only violations whose key starts with one of these tags (or that
+        are crashes / hangs / unbounded growth) belong to this property; harnesses shared
+        between properties tag every oracle with the property it decides."""
+        if tags is not None:
+            mine, other = [], {}
+            for v in self.violations:
+                k = v["key"]
+                if k.split(":")[0] in tags or k.split(":")[0] in ("crash", "hang", "memgrowth"):
+                    mine.append(v)
+                else:
+                    other[k] = other.get(k, 0) + 1
+            self.violations = mine
+            if other:
+                self.notes.append("violations of oracles that belong to other properties (reported by their own checks): %s"
+                                  % json.dumps(other, sort_keys=True))
         known, fixed = load_known()
         known = [k for k in known if k["property"] == self.id]
-        os.makedirs(os.path.join(VERIF, "evidence"), exist_ok=True)
-        os.makedirs(os.path.join(VERIF, "replays"), exist_ok=True)
+        os.makedirs(os.path.join(OUT, "evidence"), exist_ok=True)
+        os.makedirs(os.path.join(OUT, "replays"), exist_ok=True)
         seen_known = {}
         unknown = {}
         for v in self.violations:
@@ -266,7 +299,7 @@ class Ctx:
             n += 1
             if n > 25:
                 break
-            rp = os.path.join(VERIF, "replays", "%s-%s-%s.json" % (
+            rp = os.path.join(OUT, "replays", "%s-%s-%s.json" % (
                 self.id, self.tier, hashlib.md5(key.encode()).hexdigest()[:10]))
             with open(rp, "w") as f:
                 json.dump({"property": self.id, "key": key, "case": v["case"], "msg": v["msg"],
@@ -277,7 +310,7 @@ class Ctx:
         cov = dict(coverage)
         cov.setdefault("samples", self.samples[:8] or ["(none)"])
         cov["counters"] = dict(sorted(self.counters.items()))
-        if self.deadline_hit or self.counters.get("capped_restarts"):
+        if self.deadline_hit or self.counters.get("capped_restarts") or self.counters.get("capped_violations"):
             cov["exhaustive"] = False
             cov["deadline_hit"] = bool(self.deadline_hit)
         if self.notes:
@@ -290,7 +323,7 @@ class Ctx:
                                           universal_newlines=True).stdout.strip(),
               "repo_dirty": bool(subprocess.run(["git", "-C", REPO, "status", "--porcelain", "--untracked-files=no"],
                                                 stdout=subprocess.PIPE, universal_newlines=True).stdout.strip())}
-        with open(os.path.join(VERIF, "evidence", "%s.json" % self.id), "w") as f:
+        with open(os.path.join(OUT, "evidence", "%s.json" % self.id), "w") as f:
             json.dump(ev, f, indent=1, sort_keys=True)
             f.write("\n")
         print("%s %s: %s; violations=%d known=%d wall=%.1fs" % (
